@@ -151,7 +151,12 @@ def build_job_graph(g, profiles, seed):
                               conditional=n.get("conditional", False),
                               probability=n.get("probability", 1.0),
                               terminal=n.get("terminal", False))
-    mapping = {jobs[n["name"]]: [jobs[c] for c in n["children"]] for n in g["nodes"]}
+    nodes = list(g["nodes"])
+    if g.get("node_order"):
+        # the order in which a description lists its nodes carries no meaning: insert them in a seeded order
+        rank = {name: i for i, name in enumerate(g["node_order"])}
+        nodes.sort(key=lambda n: rank.get(n["name"], len(rank)))
+    mapping = {jobs[n["name"]]: [jobs[c] for c in n["children"]] for n in nodes}
     dv = tuple(g["deadline_variance"]) if g.get("deadline_variance") is not None else None
     return JobGraph(name=g["name"], jobs=mapping,
                     release_policy=build_release(g["release"], seed), deadline_variance=dv)
@@ -213,6 +218,8 @@ def build_world(world):
             pool.step(US(0), US(1000000))
     b.workload = Workload.from_job_graphs(jgs, _flags=b.flags)
     b.workload.populate_task_graphs(completion_time=US(world["sim"]["loop_timeout"]))
+    if world.get("mixed_units"):
+        _mix_units(world, b)
     if _LOADER_CLS is None:
         _LOADER_CLS = make_loader_classes()
     b.loader = _LOADER_CLS(b.workload)
@@ -220,6 +227,29 @@ def build_world(world):
     b.loop_timeout = US(world["sim"]["loop_timeout"])
     b.scheduler_frequency = US(world["sim"]["scheduler_frequency"])
     return b
+
+
+def _mix_units(world, b):
+    """worlds on a millisecond grid: round every task deadline up to a whole millisecond and write a seeded
+    half of them in ms (or s when possible) instead of us -- the same instants, another unit"""
+    import random
+
+    from utils import EventTime
+
+    r = random.Random(f"{world['seed']}:units")
+    for tg in b.workload.task_graphs.values():
+        for t in tg.get_nodes():
+            d = t.deadline.to(EventTime.Unit.US).time
+            if d <= 0:
+                continue
+            d = -(-d // 1000) * 1000
+            u = r.random()
+            if u < 0.15 and d % 1000000 == 0:
+                t.update_deadline(EventTime(d // 1000000, EventTime.Unit.S))
+            elif u < 0.6:
+                t.update_deadline(EventTime(d // 1000, EventTime.Unit.MS))
+            else:
+                t.update_deadline(EventTime(d, EventTime.Unit.US))
 
 
 def build_policy(world, b):
@@ -243,6 +273,10 @@ def build_policy(world, b):
         from .chaos import make_chaos
 
         return make_chaos(world, b)
+    if name == "WC":
+        from .chaos import make_wc
+
+        return make_wc(world, b)
     from .policies import build_planner
 
     return build_planner(world, b)
